@@ -68,7 +68,14 @@ pub fn judge_with(c: &Case, id: &str, make: &dyn Fn(&Prog, &RawCmd) -> Cmd) -> O
     obs.key = hash_of(&(&p.text, &script, &c.input));
     let ncmds = model.kept as u64 * 2 + 2;
     let fuel = 8 * (model.dbg.executed + ncmds) + 64;
-    let s = run_lace(&p, &script, &c.input, fuel);
+    // a quarter of the histories run in the normal (non-minimal) output mode; there the states after
+    // the single commands cannot be read from the transcript, and the comparison is on the final
+    // snapshot (hook H1), the instruction count and the program's output. (Programs that may
+    // execute REG are kept in minimal mode: its listing differs between the modes.)
+    let may_reg = p.img.words.iter().any(|w| *w & 0xF0FF == 0xF027);
+    let minimal = may_reg || obs.key % 4 != 0;
+    obs.label(if minimal { "output-mode-minimal" } else { "output-mode-normal" });
+    let s = if minimal { run_lace(&p, &script, &c.input, fuel) } else { run_lace_mode(&p, &script, &c.input, fuel, false) };
     let Some(out) = outcome_of(&mut obs, id, &s, &shown) else { return obs };
     // classes and non-triviality
     let mut resuming = 0;
@@ -123,7 +130,7 @@ pub fn judge_with(c: &Case, id: &str, make: &dyn Fn(&Prog, &RawCmd) -> Cmd) -> O
     // compare; where the last command is a step over a call with two readings, either is accepted
     let attempt = |model: &ModelRun| -> Option<(String, String)> {
         let mut o = Obs::default();
-        if !compare_states(&mut o, id, model, &cmds, out, &shown) {
+        if minimal && !compare_states(&mut o, id, model, &cmds, out, &shown) {
             return o.fail;
         }
         if let Some(fin) = &out.fin {
